@@ -14,12 +14,12 @@ write no stamp, each leaving the provenance as it is:
   `implicit` — `Find` creating the input / output an rpc / action did not spell out;
   `congr`    — a forest with the same `tree?` answers (`Find` stores the tree it walked back into
                the forest even when nothing changed; nothing ever reads a forest but through `tree?`).
-Every `Built` forest is `Built'`; C12's provenance theorem holds for `Built'` (`namespace_placedBy'`);
+Every `Built` forest is `Built'`; C12's provenance theorem holds for `Built'` (`namespace_placedBy_prime`);
 and `Built'` is threaded through `augmentTree`, `augmentPass`, `augmentLoop`, `FixChoice`, the leftover
 pass and the second `FixChoice`: the forest `processAll` applies its deviations to is `Built'`
-(`preDev_built'`, for every registry, option set and plugged-in stage), hence so is the forest an
+(`preDev_builtPrime`, for every registry, option set and plugged-in stage), hence so is the forest an
 error-free `processAll` returns when no loaded module has a deviation statement
-(`processAll_built'`: C12's end-to-end statement with `Built'` for `Built`).
+(`processAll_builtPrime`: C12's end-to-end statement with `Built'` for `Built`).
 
 The namespace an augment of tree `id` stamps with is computed once per `Entry.Augment` call from the
 root of tree `id`; it is `ownerNs reg id` because that tree exists — C04's invariant "the tree of
@@ -32,13 +32,13 @@ open Goyang.Model Goyang.Spec.ConfigNs
 open Goyang.Lemmas.Bridge
 
 /-- Every `Built` forest is `Built'`, with the same provenance. -/
-theorem built_is_built' {reg : Registry} {f : Forest} {prov : Loc → Option Nat} (h : Built reg f prov) :
+theorem built_is_builtPrime {reg : Registry} {f : Forest} {prov : Loc → Option Nat} (h : Built reg f prov) :
     Built' reg f prov := Built.toBuilt' h
 
 /-- **Namespace attribution** (C12's `namespace_placedBy`) **for `Built'`**: in any forest built by
 conversion, grafts, `FixChoice` and the stamp-free steps of the augment loop, a node placed by the
 text of (sub)module `m` reports the namespace of the module `m` belongs to. -/
-theorem namespace_placedBy' {reg : Registry} {f : Forest} {prov : Loc → Option Nat} (hb : Built' reg f prov)
+theorem namespace_placedBy_prime {reg : Registry} {f : Forest} {prov : Loc → Option Nat} (hb : Built' reg f prov)
     (loc : Loc) (m : Nat) (root : Entry) (hroot : f.tree? loc.1 = some root) (hp : prov loc = some m) :
     namespaceAt reg f loc = ownerNs reg m :=
   built'_namespace hb loc m (by rw [hroot]; rfl) hp
@@ -46,7 +46,7 @@ theorem namespace_placedBy' {reg : Registry} {f : Forest} {prov : Loc → Option
 /-- `Find` keeps a forest `Built'`, with the same provenance, whatever path it is asked — including
 the paths on which it creates an absent rpc input / output, and those whose first prefix cannot be
 resolved (error on the root of the start tree). -/
-theorem find_keeps_built' {reg : Registry} {f : Forest} {prov : Loc → Option Nat} (hb : Built' reg f prov)
+theorem find_keeps_builtPrime {reg : Registry} {f : Forest} {prov : Loc → Option Nat} (hb : Built' reg f prov)
     (start : Loc) (ctx : Nat) (name : String) : Built' reg (find reg f start ctx name).2 prov :=
   built'_find hb start ctx name
 
@@ -58,24 +58,24 @@ theorem liftPath_injective (e : Entry) (p p' : Path) (h : (e.getAt p).isSome = t
 /-- One `Entry.Augment` call keeps the invariant of the augment stage: the forest is `Built'`, the
 children of the pending augment entries are stamp-free, the tree of every (sub)module with pending
 augments exists. -/
-theorem augmentTree_keeps_built' (reg : Registry) (id : Nat) (addErrors : Bool) (s : PState) (h : BI reg s) :
+theorem augmentTree_keeps_builtPrime (reg : Registry) (id : Nat) (addErrors : Bool) (s : PState) (h : BI reg s) :
     BI reg (augmentTree reg id addErrors s).1 :=
   augmentTree_bi reg id addErrors s h
 
 /-- So does the loop, for every fuel and module order. -/
-theorem augmentLoop_keeps_built' (reg : Registry) (fuel : Nat) (mods : Array Nat) (s : PState) (h : BI reg s) :
+theorem augmentLoop_keeps_builtPrime (reg : Registry) (fuel : Nat) (mods : Array Nat) (s : PState) (h : BI reg s) :
     BI reg (augmentLoop reg fuel mods s).2 :=
   augmentLoop_bi reg fuel mods s h
 
 /-- The invariant holds where `processAll` starts the augment phase (C12's
 `conversion_forest_built` + C04's "the tree of every module with augments exists"). -/
-theorem phaseStart_built' (reg : Registry) (opts : Opts) (plug : Plug) : BI reg (Lemmas.Tree.pstate0 reg opts plug) :=
+theorem phaseStart_builtPrime (reg : Registry) (opts : Opts) (plug : Plug) : BI reg (Lemmas.Tree.pstate0 reg opts plug) :=
   bi_pstate0 reg opts plug
 
 /-- **The forest `processAll` applies its deviations to is `Built'`**: through the augment loop,
 `FixChoice`, the leftover pass and the second `FixChoice` — for every registry, option set and
 plugged-in type / identity / typedef stage. -/
-theorem preDev_built' (reg : Registry) (opts : Opts) (plug : Plug) :
+theorem preDev_builtPrime (reg : Registry) (opts : Opts) (plug : Plug) :
     ∃ prov, Built' reg (Lemmas.Tree.preDev reg opts plug).forest prov :=
   (bi_preDev reg opts plug).built
 
@@ -100,20 +100,20 @@ theorem devStage_no_deviations (reg : Registry) (opts : Opts) (plug : Plug) (f0 
 
 /-- **C12's end-to-end statement** (`C12.processAll_built_statement`) **with `Built'`**: the forest
 of an error-free `processAll` run without deviations is `Built'`, so every node of it that some
-module's text placed reports that module's namespace (`namespace_placedBy'`). -/
-theorem processAll_built' (reg : Registry) (opts : Opts) (plug : Plug)
+module's text placed reports that module's namespace (`namespace_placedBy_prime`). -/
+theorem processAll_builtPrime (reg : Registry) (opts : Opts) (plug : Plug)
     (hclean : (processAll reg opts plug).errors = [])
     (hnd : ∀ m ∈ reg.mods, m.stmt.all "deviation" = []) :
     ∃ prov, Built' reg (processAll reg opts plug).forest prov := by
   obtain ⟨_, _, _, _, h5⟩ := Lemmas.Tree.processAll_clean reg opts plug hclean
   rw [h5, devStage_no_deviations reg opts plug _ hnd]
-  exact preDev_built' reg opts plug
+  exact preDev_builtPrime reg opts plug
 
 /-! ### non-vacuity -/
 section Examples
 open Goyang.Props.C04.Ex
 
-/-- C04's example module satisfies the hypotheses of `processAll_built'`. -/
+/-- C04's example module satisfies the hypotheses of `processAll_builtPrime`. -/
 example : (processAll reg1 {} plug).errors = [] ∧ (∀ m ∈ reg1.mods, m.stmt.all "deviation" = []) := by decide +kernel
 
 /-- The two new stamp-free constructors on a concrete forest: an rpc without written input; `Find`
